@@ -182,6 +182,83 @@ func ZZC12Gofmt() {
 	nd.Assert((count(c12Formatted, "TAG-A", "TAG-B", "TAG-C", "TAG-D") == 4) == imm, "formatted version: one report per write")
 }
 
+const c12NoteBase = `package d
+
+//«annT»
+type T struct {
+	f int
+}
+
+func NewT() *T { return &T{} }
+
+var (
+	x = []T{
+		{f: 1}, // TAG-X
+		//«ign»
+	}
+	y = T{} // TAG-Y
+)
+
+func Use(t *T) {
+	if t != nil {
+		t.f = 1 // TAG-IN
+		//«ign»
+	}
+	t.f = 2 // TAG-AFTER
+}
+`
+
+const c12NoteAdded = `package d
+
+//«annT»
+type T struct {
+	f int
+}
+
+func NewT() *T { return &T{} }
+
+var (
+	x = []T{
+		{f: 1}, // TAG-X
+		//«ign»
+	} // an ordinary remark behind the closing brace
+	y = T{} // TAG-Y
+)
+
+func Use(t *T) {
+	if t != nil {
+		t.f = 1 // TAG-IN
+		//«ign»
+	} // an ordinary remark behind the closing brace
+	t.f = 2 // TAG-AFTER
+}
+`
+
+// ZZC12TrailingNote: an ordinary comment added behind a closing brace does not change any verdict — also when the last thing
+// inside the braces is a stand-alone @ignore marker (whatever that marker covers, it covers the same with and without the remark).
+func ZZC12TrailingNote() {
+	annT := nd.EnumPad("annT", " @constructor NewT", " @immutable", " plain")
+	ign := nd.EnumPad("ign", " @ignore CTOR01", " @ignore IMM01", " @ignore ALL", " plain")
+	holes := []nd.Hole{{"annT", annT}, {"ign", ign}}
+	count := func(src, tag string) int {
+		prog := nd.LoadProgram([]nd.File{{Pkg: "zzmod/d", Name: "d.go", Src: src}}, holes)
+		res := Analyze(prog, config.Default(), "zzmod/d", Facts{}, "imm", "ctor")
+		n := 0
+		for _, d := range res.Diags {
+			if d.Line == nd.LineOf(src, tag) {
+				n++
+			}
+		}
+		return n
+	}
+	for _, tag := range []string{"TAG-X", "TAG-Y", "TAG-IN", "TAG-AFTER"} {
+		nd.Assert(count(c12NoteBase, tag) == count(c12NoteAdded, tag), "an ordinary comment behind a closing brace changes no verdict")
+	}
+	plainIgn := nd.HasPrefix(ign, " plain")
+	nd.Assert(nd.Or(nd.Not(plainIgn), (count(c12NoteBase, "TAG-Y") == 1) == nd.HasPrefix(annT, " @constructor")), "without markers: CTOR01 on y iff T is annotated")
+	nd.Assert(nd.Or(nd.Not(plainIgn), (count(c12NoteBase, "TAG-AFTER") == 1) == nd.HasPrefix(annT, " @immutable")), "without markers: IMM01 on the write iff T is annotated")
+}
+
 const c12SrcGroup = `package d
 
 //«g0»
